@@ -107,8 +107,12 @@ def run(ctx, drv):
     for name in ALL:
         for p in instances(name, rng, ctx.quick()):
             desc = f"{name}(nobjs={p.nobjs}, nvars={p.nvars})"
-            for x in points(p, rng, per):
-                s = C.Solution(p)
+            s = None
+            for pi, x in enumerate(points(p, rng, per)):
+                # every other point re-uses the previous Solution object (new variables, evaluated again): evaluation is a
+                # function of the variables it is given now, not of what the object held before
+                if s is None or pi % 2 == 0:
+                    s = C.Solution(p)
                 s.variables[:] = x
                 r = call(s.evaluate)
                 inp = {"problem": desc, "variables": x if not isinstance(x[0], list) else [wbits(v) for v in x]}
